@@ -772,3 +772,10 @@ func (p *printer) postfixBase(x Expr) {
 		p.expr(x, false)
 	}
 }
+
+// ExprString prints a single expression (used for raw embedding in injected / hand-built declarations).
+func ExprString(m *Module, e Expr) string {
+	p := &printer{line: 1, col: 1, bol: true, decl: -1, m: m}
+	p.expr(e, true)
+	return p.sb.String()
+}
